@@ -297,8 +297,20 @@ def run_impl(ctx, cases):
     return {x['id']: x for x in json.loads(Path(spec['out']).read_text())}
 
 
+CFG_OK_V = """From Coq Require Import String List.
+From FV.C04 Require Import Text Model Proofs Props.
+From FV.C04.gen Require Import UcdCfg.
+Theorem C04_cfg_ok : cfg_ok UcdCfg.cfg = true.
+Proof. vm_compute. reflexivity. Qed.
+Definition C04_ucd_roundtrip_unconditional :=
+  fun V p q h1 h2 => C04_ucd_roundtrip V p q h1 h2 C04_cfg_ok.
+Check C04_ucd_roundtrip_unconditional.
+Print Assumptions C04_ucd_roundtrip_unconditional.
+"""
+
 HEADER = ['From Coq Require Import ZArith String List. Import ListNotations.',
-          'From FV.C04 Require Import Text Model Corr.', 'From FV.C04.gen Require Import UcdCfg.',
+          'From FV.C04 Require Import Text Model Corr Props.', 'From FV.C04.gen Require Import UcdCfg.',
+          'Definition write_ucd_opt et c m := match write_ucd str tprint et c m with Ok l => Some l | Err _ => None end.',
           'Open Scope string_scope.', 'Set Printing Width 100000.']
 
 
@@ -331,6 +343,11 @@ def coq_correspondence(ctx, cases, res, tag):
             else:
                 wl.append(f"({c['id']}, agree_write element_types cfg m{c['id']} None)")
             pl.append(f"({c['id']}, model_roundtrip_ok element_types cfg m{c['id']})")
+            if c.get('corpus_file') == '000_model_witness.json':
+                # the replayed witness is the one of C04_ucd_roundtrip_positional_refuted
+                wl.append(f"({c['id']}, res_agree (list_eqb str_eqb) "
+                          f"(write_ucd str tprint element_types positional Props.witness) "
+                          f"(write_ucd_opt element_types positional m{c['id']}))")
         for nm, l in (('W', wl), ('R', rl), ('P', pl)):
             txt.append(f'Definition cases{nm} : list (nat * bool) := {lib.coq_list(l)}.')
             txt.append(f'Goal True. idtac "@@ {nm}". Abort.')
@@ -409,10 +426,15 @@ def check_cases(ctx, cases, etypes, cfg, tag, tie_ok):
     for cid, d in sorted(oracle_bad.items()):
         c = by_id[cid]
         secs = sorted({x[0] for x in d})
+        al = {'nodal': is_aligned(c, etypes, 'nodal'), 'elemental': is_aligned(c, etypes, 'elemental')}
+        # narrow signature: which sections differ, whether each of them is one whose variables
+        # are stored in another id order than the mesh, and whether the positional-binding
+        # model reproduces femio's file and read-back exactly and itself refutes the round trip
         sig = {'site': 'UCDWriter.write', 'sections': '+'.join(secs),
-               'nodal_aligned': is_aligned(c, etypes, 'nodal'),
-               'elemental_aligned': is_aligned(c, etypes, 'elemental'),
-               'explained_by_model': tie_ok and cid not in bad_w and cid not in bad_r and cid in model_false}
+               'nodal_aligned': al['nodal'], 'elemental_aligned': al['elemental'],
+               'diff_only_in_misaligned_sections': all(s in al and not al[s] for s in secs),
+               'explained_by_model': bool(tie_ok and cid not in bad_w and cid not in bad_r
+                                          and cid in model_false)}
         listed = ctx.violation(
             'impl-violation', case_for_replay(c),
             'every value read back under the id it was written for (bit exact)',
@@ -513,6 +535,18 @@ def main(ctx):
             ctx.obligations.append({'name': n, 'discharged': False, 'assumptions': [],
                                     'note': 'translator failed closed'})
     ctx.notes['writer_binding'] = {k: cfg[k] for k in ('nodal_by_id', 'elemental_by_id')} if cfg else None
+    # 2b. per-run obligation: the translated writer binds rows by id; with it the
+    #     unconditional round-trip theorem is obtained
+    cfg_is_ok = False
+    if tie_ok and proof_ok:
+        rc, out, err = ctx.coq_eval('CfgOk', CFG_OK_V)
+        cfg_is_ok = rc == 0
+        ax = [] if 'Closed under the global context' in out else re.findall(r'^([A-Za-z0-9_.\']+)\s*:', out, flags=re.M)
+        note = '' if cfg_is_ok else ('cfg_ok cfg = false: UCDWriter.write binds data rows by position '
+                                     '(see C04_ucd_roundtrip_positional_refuted and the replayed witness)')
+        for nm in ('C04_cfg_ok', 'C04_ucd_roundtrip_unconditional'):
+            ctx.obligations.append({'name': nm, 'discharged': cfg_is_ok, 'assumptions': ax, 'note': note})
+    ctx.notes['cfg_ok'] = cfg_is_ok
     # 3. hypothesis exercised
     hb = hypothesis_check(ctx, 20000 if ctx.tier == 'quick' else 400000)
     ctx.notes['repr_roundtrip_failures'] = hb
